@@ -59,6 +59,7 @@ R = [
     (r"^Rc4::new$", r"slice-op", r"swap", "SAFE", "initial_state is [u8; 256]; i ranges over 0..256 and j is a u8"),
     (r"^Rc4::new$", r"panic", r"assertion failed", "SAFE", "callers pass hash[..n] with n = Length/8 <= 16 (checked next to each use), Length validated to be >= 40 for every V (default 40): 5..=16 bytes; the RC4 crypt filter rejects empty keys first", [{'kind': 'exists', 'fn': '<PasswordAlgorithm as TryFrom>::try_from', 'cond': '^Lt\\(\\$\\d+,40\\)$'}]),
     (r"^Reader::get_xref_start::\{closure#1\}$", r"overflow:Sub", r"eof_pos,25", "SAFE", "the preceding and_then closure passes on only eof_pos > 25", [{'kind': 'exists', 'fn': 'Reader::get_xref_start', 'cond': '^Gt\\(\\$\\d+,25\\)$'}]),
+    (r"^IncrementalDocument::save_internal$", r"overflow:Sub", r"header_offset\(", "SAFE", "header_offset(buf) is a position() inside windows(5) over buf, or 0: never more than buf.len()", [{'kind': 'call-arg', 'fn': 'reader::header_offset', 'callee': 'iter::Iterator::position$', 'arg': 0, 'matches': 'windows\\(.*,5\\)'}, {'kind': 'call-arg', 'fn': 'reader::header_offset', 'callee': 'Option::<T>::unwrap_or$', 'arg': 1, 'matches': '^0$'}]),
     (r"^Reader::read$", r"index:RangeFrom", r"RangeFrom\{offset\}", "SAFE", "offset is a position() inside windows(5) over the same buffer, or 0"),
     (r"^Reader::read$", r"overflow:Add|index:RangeFrom", r"pos,1", "SAFE", "pos is a position() of an element of the buffer: pos + 1 <= len"),
     (r"^Reader::read$", r"overflow:Sub", r"xref.size,1", "SAFE", "xref.size was just set to max_id().checked_add(1)? >= 1 (or already equal to it)"),
